@@ -90,7 +90,9 @@ ShapesDoc == Obj(<<k_, c_, o_>>, <<IntV(1), Arr(Elems), Obj(ElemNames, Elems)>>)
 \* ---- functions over a regex pool --------------------------------------------------
 RePool == { ReAdot, ReB, Plus(ClsT({97, 98}, FALSE, <<97, 98>>)), Alt(Chr(97), Chr(98)), Star(Cat(Chr(97), Chr(98))),
             Cat(Opt(Chr(97)), Chr(98)), AnyChar, ClsT({97}, TRUE, <<97>>), Cat(Chr(97), Cat(Chr(46), Chr(98))),
-            Cat(Chr(97), Cat(AnyChar, Chr(98))), Plus(ClsT(97..99, FALSE, <<97, 45, 99>>)) }
+            Cat(Chr(97), Cat(AnyChar, Chr(98))), Plus(ClsT(97..99, FALSE, <<97, 45, 99>>)),
+            \* inside a bracket expression a dot is a dot
+            Cat(Chr(97), Cat(ClsT({46}, FALSE, <<46>>), Chr(98))), Plus(ClsT({97, 46}, FALSE, <<97, 46>>)) }
 StrDoc == Arr(<<S(<<>>), S(a_), S(b_), S(<<97, 98>>), S(<<98, 97>>), S(<<97, 98, 97, 98>>), S(<<97, 46, 98>>), S(c_), S(<<97, 120, 98>>),
                IntV(1), Null, Arr(<<S(a_)>>), Obj(<<s_>>, <<S(<<97, 98>>)>>), Obj(<<s_>>, <<IntV(1)>>), S(<<65, 66>>)>>)
 LenDoc == Arr(<<S(<<>>), S(<<233, 128512>>), Arr(<<>>), Arr(<<IntV(1), IntV(2), IntV(3)>>), Obj(<<>>, <<>>), Obj(<<a_, b_>>, <<IntV(1), IntV(2)>>),
